@@ -67,6 +67,7 @@ class World {
   std::function<void(int)> on_proc_death;
   std::function<bool()> on_idle;
   std::function<void()> on_decision;
+  std::function<void(int, long)> on_point;
   std::function<void(int, const std::string &)> on_uncaught;
   bool finished = false;
 };
@@ -322,6 +323,7 @@ static void decide(int kind, long obj) {
 
 void point(int kind, long obj) {
   if (!active()) return;
+  if (W->on_point) W->on_point(kind, obj);
   decide(kind, obj);
 }
 
@@ -421,6 +423,7 @@ TState task_state(int task) { return W->tasks[task]->state; }
 void set_on_proc_death(const std::function<void(int)> &f) { W->on_proc_death = f; }
 void set_on_idle(const std::function<bool()> &f) { W->on_idle = f; }
 void set_on_decision(const std::function<void()> &f) { W->on_decision = f; }
+void set_on_point(const std::function<void(int, long)> &f) { W->on_point = f; }
 void set_on_uncaught(const std::function<void(int, const std::string &)> &f) { W->on_uncaught = f; }
 
 static void finish_task(Task *t, TState st) {
